@@ -735,6 +735,11 @@ def call_ext(interp, ext, node, args, kwargs, st):
                 tags = frozenset([("linmap-of", tuple(sorted(a0.al)), b.tags)])
             if name == "cross":
                 tags = frozenset(["cross"])
+            if a0 is not None:
+                ch_l = {(t_[1], t_[2]) for t_ in a0.tags if isinstance(t_, tuple) and t_ and t_[0] == "chain"}
+                ch_r = {(t_[1], t_[2]) for t_ in b.tags if isinstance(t_, tuple) and t_ and t_[0] == "chain"}
+                if any((i_, "tail" if w_ == "head" else "head") in ch_r for (i_, w_) in ch_l):
+                    tags = tags | {("ret", "<open-chain>")}
             if a0 is not None and "maybe-int" in a0.tags and "maybe-int" in b.tags:
                 tags = tags | {"maybe-int"}      # integer (x) integer stays integer
             sym = a0.sym * b.sym if (name in ("multiply", "dot") and a0 is not None and a0.sym is not None and b.sym is not None) else None
